@@ -8,10 +8,12 @@ import (
 	sdk "github.com/cosmos/cosmos-sdk/types"
 	authtypes "github.com/cosmos/cosmos-sdk/x/auth/types"
 	"github.com/ethereum/go-ethereum/common"
+	"github.com/ethereum/go-ethereum/core"
 	ethtypes "github.com/ethereum/go-ethereum/core/types"
 	corevm "github.com/ethereum/go-ethereum/core/vm"
 
 	cpckeeper "github.com/EscanBE/evermint/v12/x/cpc/keeper"
+	evmkeeper "github.com/EscanBE/evermint/v12/x/evm/keeper"
 	cpctypes "github.com/EscanBE/evermint/v12/x/cpc/types"
 	"github.com/EscanBE/evermint/v12/zzverif/env"
 	"github.com/EscanBE/evermint/v12/zzverif/verif"
@@ -282,4 +284,27 @@ func H_C17_3_Exposure() {
 	verif.Assert("unregistered-address-not-exposed", !has(X3))
 	ret2, _, err2 := evm.StaticCall(corevm.AccountRef(X2), X3, callData("totalSupply"), 100_000)
 	verif.Assert("unregistered-address-is-an-empty-account", err2 == nil && len(ret2) == 0)
+}
+
+// H_C02_4_WarmSet: after the real state transition (keeper.ApplyMessage -> TransitionDb -> PrepareAccessList)
+// the warm address set is what go-ethereum's Prepare produces plus the documented differences: sender,
+// destination, the standard precompiles, the registered custom precompiles (and the coinbase from Shanghai on) -
+// and nothing else: in particular neither an unrelated account nor the zero address.
+func H_C02_4_WarmSet() {
+	w := newWorld()
+	e := w.e
+	sdb := e.NewStateDB(e.Ctx, Coinbase)
+	ctx := sdb.GetCurrentContext()
+	e.AK.SetAccount(ctx, &authtypes.BaseAccount{Address: sdk.AccAddress(X1[:]).String(), AccountNumber: 77, Sequence: 0})
+	to := X2
+	msg := ethtypes.NewMessage(X1, &to, 0, big.NewInt(0), 100_000, big.NewInt(0), big.NewInt(0), big.NewInt(0), nil, nil, false)
+	evm := e.EK.NewEVM(ctx, msg, e.EVMConfig(ctx, Coinbase, big.NewInt(0)), nil, sdb)
+	gp := core.GasPool(100_000)
+	_, err := evmkeeper.ApplyMessage(evm, msg, &gp, nil)
+	verif.Assert("plain-call-executes", err == nil)
+	verif.Assert("sender-and-destination-warm", sdb.AddressInAccessList(X1) && sdb.AddressInAccessList(X2))
+	verif.Assert("standard-precompile-warm", sdb.AddressInAccessList(common.BytesToAddress([]byte{1})))
+	verif.Assert("custom-precompile-warm", sdb.AddressInAccessList(w.contract))
+	verif.Assert("unrelated-account-cold", !sdb.AddressInAccessList(X3))
+	verif.Assert("zero-address-cold", !sdb.AddressInAccessList(common.Address{}))
 }
